@@ -142,6 +142,83 @@ def check_one(name, fn, f, nv, orig):
     return None
 
 
+def node_contracts(ck, Lg, tier):
+    from sweetpea._internal.logic import And, Or, If, Iff, Not
+    rep_fn = Lg.__dict__["__tseitin_rep"]
+    dom = [1, 2, 3, -1, -2, -3, 9] if tier == "thorough" else [1, 2, 3, -1, -2]
+    nodes = []
+    for m in range(0, 4 if tier == "thorough" else 3 + 1):
+        for ops in itertools.product(dom, repeat=m):
+            if m <= 2 or len(set(map(abs, ops))) >= 2 or tier == "thorough":
+                nodes.append(("And", ops))
+                nodes.append(("Or", ops))
+    for p_, q_ in itertools.product(dom, repeat=2):
+        nodes.append(("If", (p_, q_)))
+        nodes.append(("Iff", (p_, q_)))
+    for a in dom:
+        nodes.append(("Not", (a,)))
+    mk = {"And": lambda o: And(list(o)), "Or": lambda o: Or(list(o)), "If": lambda o: If(*o), "Iff": lambda o: Iff(*o), "Not": lambda o: Not(o[0])}
+    sem = {"And": lambda v: all(v), "Or": lambda v: any(v), "If": lambda v: (not v[0]) or v[1], "Iff": lambda v: v[0] == v[1], "Not": lambda v: not v[0]}
+    NEXT = 20
+    by_key = {}
+    t0 = time.time()
+    bad1 = bad2 = bad3 = None
+    for (op, ops) in nodes:
+        cache = Lg._Cache(NEXT)
+        clauses = []
+        try:
+            rep = rep_fn(mk[op](ops), clauses, cache)
+            keys = list(cache.cache.keys())
+            n_added = len(clauses)
+            rep2 = rep_fn(mk[op](ops), clauses, cache)
+        except Exception as e:
+            bad1 = bad1 or (op, ops, f"raised {type(e).__name__}: {e}")
+            continue
+        ck.count(("node", op, ops))
+        # N1
+        vs = sorted({abs(x) for x in ops})
+        ok = rep == NEXT and cache.get_next_variable() == NEXT + 1 and len(keys) == 1
+        if ok:
+            for bits in itertools.product([False, True], repeat=len(vs) + 1):
+                val = dict(zip(vs + [NEXT], bits))
+                lhs = all(ev(c, val) for c in clauses)
+                rhs = val[NEXT] == sem[op]([ev(x, val) for x in ops])
+                if lhs != rhs:
+                    ok = False
+                    break
+        if not ok and bad1 is None:
+            bad1 = (op, ops, f"cache miss: representative {rep}, next_variable {cache.get_next_variable()}, keys {keys}, clauses {clauses} are not equivalent to {NEXT} <-> {op}{ops}")
+        # N2
+        if (rep2 != rep or len(clauses) != n_added or cache.get_next_variable() != NEXT + 1) and bad2 is None:
+            bad2 = (op, ops, f"cache hit: returned {rep2} (first {rep}), clauses grew from {n_added} to {len(clauses)}")
+        # N3
+        if len(keys) == 1:
+            by_key.setdefault(keys[0], []).append((op, ops))
+    for key, group in by_key.items():
+        (op0, ops0) = group[0]
+        for (op1, ops1) in group[1:]:
+            vs = sorted({abs(x) for x in ops0 + ops1})
+            for bits in itertools.product([False, True], repeat=len(vs)):
+                val = dict(zip(vs, bits))
+                if sem[op0]([ev(x, val) for x in ops0]) != sem[op1]([ev(x, val) for x in ops1]):
+                    bad3 = bad3 or (key, (op0, ops0), (op1, ops1), val)
+                    break
+    dt = time.time() - t0
+    for oid, bad, what in (("C11.tseitin.node.miss_defines", bad1, "on a cache miss the appended clauses are equivalent to rep <-> op(children); rep == old next_variable"),
+                           ("C11.tseitin.node.hit_silent", bad2, "on a cache hit nothing is appended and the cached representative is returned")):
+        ck.oblig(oid, "S", "proved" if bad is None else "refuted", "truth-table", dt, f"{len(nodes)} nodes over operands {dom}: {what}")
+        if bad is not None:
+            ck.violation(oid, f"{oid}:{bad[0]}", f"__tseitin_rep on {bad[0]}{bad[1]}: {bad[2]}",
+                         dict(function="sweetpea._internal.logic:__tseitin_rep", kind="node", op=bad[0], operands=list(bad[1]), failure=bad[2]))
+    ck.oblig("C11.tseitin.node.key_sound", "S", "proved" if bad3 is None else "refuted", "truth-table", dt,
+             f"{len(nodes)} nodes, {len(by_key)} distinct cache keys: nodes sharing a key are logically equivalent")
+    if bad3 is not None:
+        key, n0, n1, val = bad3
+        ck.violation("C11.tseitin.node.key_sound", f"key:{n0[0]}:{n1[0]}",
+                     f"__tseitin_rep uses the same cache key {key!r} for {n0[0]}{n0[1]} and {n1[0]}{n1[1]}, which differ under {val}: a cache hit reuses a representative defined for a different formula",
+                     dict(function="sweetpea._internal.logic:__tseitin_rep", kind="key", node_a=[n0[0], list(n0[1])], node_b=[n1[0], list(n1[1])], cache_key=key, assignment={str(k): v for k, v in val.items()}))
+
+
 def main(tier):
     import sweetpea._internal.logic as Lg
     ck = Check("C11", tier, "other",
@@ -187,6 +264,32 @@ def main(tier):
                  f"{counts[name]} formulas x all assignments of the original variables")
         for (nm, kind, sig), (f, nv, r) in bad.items():
             ck.violation(f"C11.{name}.{kind}", f"{name}:{kind}:{sig}", f"to_cnf_{name}({f}, {nv}): {r}", dict(function=f"sweetpea._internal.logic:to_cnf_{name}", formula=repr(f), next_variable=nv, failure=r))
+    # ---- node-level contracts of the Tseitin recursion (the induction step of the structural argument) ------------------------
+    # For a node whose children are already representatives (ints):  N1 on a cache miss the appended clauses are equivalent to
+    # rep <-> op(children), the representative is the old next_variable and next_variable advances by one;  N2 on a hit nothing
+    # is appended and the cached representative is returned;  N3 two nodes that share a cache key have the same meaning (otherwise
+    # a hit would reuse a representative that was defined for a different function of the operands).
+    node_contracts(ck, Lg, tier)
+    # sibling family: two binary nodes over the same literals under one And/Or (cache interaction between siblings)
+    fam = 0
+    bad_f = None
+    from sweetpea._internal.logic import And as _A, Or as _O, If as _I, Iff as _F
+    lits2 = [1, 2, -1, -2, 3] if tier == "thorough" else [1, 2, -1]
+    for top in (_A, _O):
+        for X in (_I, _F, lambda p, q: _A([p, q]), lambda p, q: _O([p, q])):
+            for Y in (_I, _F, lambda p, q: _A([p, q]), lambda p, q: _O([p, q])):
+                for a, b_, c_, d in itertools.product(lits2, repeat=4):
+                    f = top([X(a, b_), Y(c_, d)])
+                    fam += 1
+                    r = check_one("tseitin", Lg.to_cnf_tseitin, f, NV, {1, 2, 3})
+                    if r is not None and bad_f is None:
+                        bad_f = (f, r)
+    ck.count(("sibling-family", fam))
+    ck.oblig("C11.tseitin.equisat(sibling pairs)", "S", "proved" if bad_f is None else "refuted", "truth-table", 0.0,
+             f"{fam} formulas top([X(a,b), Y(c,d)]), X,Y in If/Iff/And/Or, literals {lits2}, all assignments")
+    if bad_f is not None:
+        ck.violation("C11.tseitin.semantic", "tseitin:siblings", f"to_cnf_tseitin({bad_f[0]}, {NV}): {bad_f[1]}",
+                     dict(function="sweetpea._internal.logic:to_cnf_tseitin", formula=repr(bad_f[0]), next_variable=NV, failure=bad_f[1]))
     # _Cache.get: ids handed out are exactly [nv, nv') and stable per key
     c = Lg._Cache(5)
     keys = ["a", "b", "a", "c", "b"]
@@ -214,7 +317,8 @@ def main(tier):
     ck.exhaustive = False
     ck.sample(dict(formula="If(And([1, Not(2)]), Iff(3, -1))", converters=[n for n, _ in fns]))
     ck.trust("the truth-table evaluator in this file")
-    ck.assume("the Tseitin cache key str(namedtuple of ints) is injective (true for ints)")
+    ck.assume("structural induction over the formula (children replaced by representatives, then the node contract) is a paper argument; the node contracts "
+              "(miss defines, hit silent, key sound) are checked per node over a bounded operand domain, the whole-formula statement over the bounded formula space")
     return ck.finish()
 
 
